@@ -47,6 +47,15 @@ claim("C09", "DESIGN.md §3 C09",
       "Static analysis decides that Restore refreshes every in-memory structure derived from the store after a transfer, that transfer errors propagate, that the leader's validator refuses gaps / skips applied batches / accepts the rest on every ordering of (previous,new,last), and the wiring of metadata and request parameters. It does not decide convergence over schedules.",
       TRUST + "Declined: convergence for all down/up/compaction schedules, WAL iterator semantics.")
 
+claim("C06", "DESIGN.md §3 C06",
+      "interprocedural determinism taint over provenance terms from FSM.Apply (VTA reachability), provenance of the proposer/apply payload, join discipline, order-model replay filter (static)",
+      "Static analysis decides that the replicated apply path is deterministic and local: no clock/random/environment/map-order value reaches a hash, a mutation, a cache entry, a snapshot or the FSM state; digests are computed once by the proposer; queries are local; helper goroutines are joined before their results are read; cache rebuild is a function of the store. It does not decide equality of replicas over fault sequences.",
+      TRUST + "Declined: replica equality across stop/restart/transfer sequences (raft).")
+claim("C08", "DESIGN.md §3 C08",
+      "handle pairing (create→release on all paths or escape to owner), owner-Close completeness, must-pass shutdown order, abort reachability, rebuild-on-open must-calls (static)",
+      "Static analysis decides the release discipline (every DB-bound handle released on all paths, owners' Close complete, node shutdown releases everything with the database last, no explicit abort on the shutdown path) and the rebuild-on-open obligations and cache/table wiring. It does not decide identity of later snapshots.",
+      TRUST + "Declined: snapshot/proof identity after reopen at every prefix; RocksDB's own reference counting.")
+
 NOT_YET = "check not built yet (static rules for this property are planned in DESIGN.md §3)"
 ALL = ["C%02d" % i for i in range(1, 21)]
 NA = {}
